@@ -63,8 +63,10 @@ def cases(tier, seed):
         for (name, d, npts) in geoms:
             for ad in absdeltas:
                 for mi in maxiters:
-                    if api == "fun" and (mi not in (1, 5) or d != 2):
+                    if api == "fun" and (mi not in (1, 5) or d != 2 or ad == 1e-3):
                         continue   # library-built value_and_grad / hessp: d=2, two iteration limits
+                    if d == 3 and (mi in (3, 200) or ad == 1e-3):
+                        continue   # d=3: the quick alphabets of maxiter / absdelta on the 5^3 grid
                     for check in CHECKS:
                         for start in O.start_grid(name, d, seed, npts):
                             out.append(dict(check=check, obj=name, d=d, seed=seed, start=start, maxiter=mi,
